@@ -196,6 +196,7 @@ h_pipe(int fd[2])
 	return r;
 }
 static int pending_spawn_pid;
+static int trace_vtodo;	/* VTODOS op: copy every execution request into the trace */
 static char pending_spawn_line[512];
 static int
 h_posix_spawn(pid_t *pid, const char *path, const posix_spawn_file_actions_t *fa, const posix_spawnattr_t *at, char *const argv[], char *const envp[])
@@ -225,6 +226,7 @@ flush_spawn(void)
 	if (d) { d += 10; size_t n = strcspn(d, "\n"); if (n >= sizeof(dur)) n = sizeof(dur) - 1U; memcpy(dur, d, n); dur[n] = 0; }
 	const char *su = strstr(vb, "\nX-ECHS-SETUID:");
 	tprintf("%s uid=%s dur=%s setuid=%d\n", pending_spawn_line, uid, dur, su ? atoi(su + 15) : -1);
+	if (trace_vtodo) tprintf("VTODO %zd\n%s\nENDVTODO\n", k, vb);
 	pending_spawn_pid = 0;
 	if (last_rd >= 0) { close(last_rd); last_rd = -1; }
 }
@@ -435,6 +437,7 @@ sut_daemon_tstamp(sut_inst_t s)
  *   TRACECALLS                  arm: log every checkpoint system call
  *   SHUT                        free_echsd() equivalent: final checkpoint
  *   RELOAD                      echsd_inject_queues() on the spool
+ *   VTODOS                      from now on copy every execution request handed to the executor into the trace
  *   DUMP                        print the task table
  */
 int
@@ -539,6 +542,8 @@ sut_daemon_session(const char *spooldir, const char *script, size_t len, sut_buf
 		} else if (!strncmp(line, "RELOAD", 6)) {
 			echsd_inject_queues(&ctx, spooldir);
 			tprintf("RELOAD-DONE\n");
+		} else if (!strncmp(line, "VTODOS", 6)) {
+			trace_vtodo = 1;
 		} else if (!strncmp(line, "DUMP", 4)) {
 			do_dump();
 		}
